@@ -344,6 +344,12 @@ impl World {
             }
             _ => {}
         }
+        if let Op::Create { c } = op {
+            // storage contract: new_client only for a client that does not exist
+            if self.model.client(&client_id(self.seed, *c)).is_some() {
+                return None;
+            }
+        }
         let req = concretise(self.seed, &self.model, self.n_clients, op)?;
         let ch = match op {
             Op::AddVersion { ch, .. } | Op::AddSnapshot { ch, .. } => ch.clone(),
@@ -466,6 +472,37 @@ impl World {
             }
         }
         StepOut { req, resp }
+    }
+
+    /// Name an id by its role relative to client `c` (for comparisons modulo issued ids).
+    pub fn canon_id(&self, c: &Id, id: &Id) -> String {
+        if id.is_nil() {
+            return "nil".into();
+        }
+        if let Some(cl) = self.model.client(c) {
+            if let Some(pos) = cl.versions.iter().position(|v| v.id == *id) {
+                return format!("v{pos}");
+            }
+            if cl.base == Some(*id) {
+                return "base".into();
+            }
+        }
+        "other".into()
+    }
+
+    /// A response with ids replaced by roles and payloads by digests. Call after the model advanced.
+    pub fn canon_resp(&self, c: &Id, resp: &Resp) -> String {
+        match resp {
+            Resp::AvOk { id, urg } => format!("AvOk({},{:?})", self.canon_id(c, id), urg),
+            Resp::AvConflict { expected } => format!("AvConflict({})", self.canon_id(c, expected)),
+            Resp::GcFound { id, parent, data } => format!("GcFound({},{},{}B,{:x})", self.canon_id(c, id), self.canon_id(c, parent), data.len(), crate::rng::fnv(data)),
+            Resp::GsFound { id, data } => format!("GsFound({},{}B,{:x})", self.canon_id(c, id), data.len(), crate::rng::fnv(data)),
+            Resp::Error(_) => "Error".into(),
+            Resp::Panic(_) => "Panic".into(),
+            // HTTP cannot tell an unknown client from not-found
+            Resp::NoSuchClient | Resp::GcNotFound | Resp::GsNone => "NotFound".into(),
+            other => format!("{other:?}"),
+        }
     }
 
     fn state_class(&self, c: &Id) -> String {
